@@ -58,6 +58,15 @@ func vK07e() {
 	for i := range c.graph.Files {
 		c.graph.Files[i].InputFile.Source = logger.Source{Index: uint32(i), KeyPath: logger.Path{Text: []string{"r", "a", "b"}[i], Namespace: "x"}}
 	}
+	// file A may itself carry an input source map that names several original
+	// sources; they all get slots in the joined "sources" array, and the files
+	// printed after A must be rebased behind them
+	srcsA := 1
+	if vParam("NESTED", 0) != 0 && vBool() {
+		srcsA = 2 + vChoose(vParam("NESTED", 1))
+		names := []string{"s0", "s1", "s2"}[:srcsA]
+		c.graph.Files[1].InputFile.InputSourceMap = &sourcemap.SourceMap{Sources: names}
+	}
 	maxText := vParam("TEXT", 1)
 	prefix := hBytes(hLen(0, vParam("PREFIX", 0)))
 	vAssume(sourcemap.VWholeChars(prefix))
@@ -102,7 +111,7 @@ func vK07e() {
 		}
 	}
 	add(fa, startA, 0)
-	add(fb, startB, 1)
+	add(fb, startB, srcsA)
 	wi := 0
 	for _, m := range ms {
 		if wi < len(want) && m[0] == want[wi].gl && m[1] == want[wi].gc && m[2] == want[wi].src && m[3] == want[wi].ol && m[4] == want[wi].oc {
